@@ -509,7 +509,22 @@ func (c *checker) rest(mode, fam string, toks []string) hx.Result {
 			idx++
 		}
 	}
-	_, order := g.AutGroup(nil)
+	// non-triviality: |Aut| > 1 by the independent backtracking search; above 16 vertices that
+	// search can take minutes on dense graphs with one big cell, there the orbits returned by the
+	// library decide (a measurement only, nothing is checked with it)
+	var order uint64 = 1
+	if n <= 16 {
+		_, order = g.AutGroup(nil)
+	} else {
+		guard(func() {
+			_, orb, _ := graph.CanonicalIsomorphFull(g.Dense(), nil)
+			for _, x := range orb {
+				if x >= 0 {
+					order = 2
+				}
+			}
+		})
+	}
 	// oracle-only cases observe nothing (the driver prints "ok" too); violations travel in Viol
 	obs := "ok"
 	if mode == "m" {
@@ -1077,7 +1092,7 @@ func orderedPartitions(n int) [][][]int {
 
 func main() {
 	hx.Main(hx.Prop{
-		Rule:        "modes m/o/c: case = graph + set of relabellings; every relabelled copy is canonised (dense and sparse) and compared with the canonical graph of the original; non-trivial = the graph has a non-trivial automorphism group (independent backtracking search) and at least one relabelling is not the identity; mode r: case = graph + vertex classes + picks, non-trivial = the refinement split at least one cell; distinct by case text",
+		Rule:        "modes m/o/c: case = graph + set of relabellings; every relabelled copy is canonised (dense and sparse) and compared with the canonical graph of the original; non-trivial = the graph has a non-trivial automorphism group (independent backtracking search; above 16 vertices the orbits returned by the library) and at least one relabelling is not the identity; mode r: case = graph + vertex classes + picks, non-trivial = the refinement split at least one cell; distinct by case text",
 		Gen:         gen,
 		Exec:        exec,
 		CaseTimeout: 120 * time.Second,
